@@ -547,7 +547,11 @@ func runB(c BCase) (bResult, error) {
 				continue
 			}
 			e.rec.pw, e.rec.ph = op.Kid.PW, op.Kid.PH
-			if op.Via == "resize" {
+			if op.Via == "resize" && b == r.top {
+				// a silent preferred-size change followed by Resize() of the
+				// layout that owns the child; for a child of a nested layout a
+				// widget has to announce the change (content event), as every
+				// real widget does - the statement does not cover silent changes
 				r.top.bl.Resize()
 				r.class("prefsize-then-resize")
 			} else {
